@@ -208,11 +208,13 @@ def make_resource(op, i, asgi):
     return type('Res%d' % i, (), ns)()
 
 
-def build_app(case, asgi, dirs, model):
+def build_app(case, asgi, dirs, model, after_op=None):
     cls = falcon.asgi.App if asgi else falcon.App
     app = cls(sink_before_static_route=case['sbs'])
     nstatic = 0
     for i, op in enumerate(case['ops']):
+        if after_op is not None and i > 0:
+            after_op(app, asgi, i - 1)
         if op['k'] == 'route':
             res = make_resource(op, i, asgi)
             kw = {} if op['suffix'] is None else {'suffix': op['suffix']}
@@ -310,8 +312,29 @@ def run_case(case, dirs):
     model = Model(case)
     labels = set()
     nontrivial = False
-    apps = [('wsgi', False, build_app(case, False, dirs, model)),
-            ('asgi', True, build_app(case, True, dirs, model))]
+    checkpoints = set(case.get('interleave') or [])
+    fired = [0]
+
+    def after_op(app, asgi, i):
+        # requests served while the app is still being assembled: the app as registered so far decides
+        if i not in checkpoints:
+            return
+        partial = Model(dict(case, ops=case['ops'][:i + 1]))
+        for pi, method in case['reqs'][:6]:
+            path = PATHS[pi]
+            exp = partial.dispatch(method, path)
+            obs = send(app, asgi, method, path)
+            fired[0] += 1
+            if not conforms(exp, method, obs):
+                raise Violation(
+                    'dispatch_' + exp[0],
+                    '%s %s %s after the first %d registrations: expected %r, got %r; app: sink_before_static_route=%r ops=%s'
+                    % ('asgi' if asgi else 'wsgi', method, path, i + 1, exp, obs, case['sbs'],
+                       describe(dict(case, ops=case['ops'][:i + 1]))))
+    apps = [('wsgi', False, build_app(case, False, dirs, model, after_op if checkpoints else None)),
+            ('asgi', True, build_app(case, True, dirs, model, after_op if checkpoints else None))]
+    if fired[0]:
+        labels.add('requests_between_registrations')
     if model.rejected:
         labels.add('suffix_rejected_at_add_route')
     if any(op['k'] == 'route' and op['suffix'] == 'x' and i not in model.rejected
@@ -474,7 +497,19 @@ def _apps(draw):
     anypath = st.integers(0, len(PATHS) - 1)
     path = st.one_of(anypath, st.sampled_from(hot)) if hot else anypath
     reqs = draw(st.lists(st.tuples(path, _method), min_size=8, max_size=24))
-    return {'sbs': draw(st.booleans()), 'ops': list(ops), 'reqs': [list(r) for r in reqs]}
+    # a third of the apps also serve requests while they are being assembled (after the k-th registration)
+    inter = []
+    if len(ops) >= 2 and draw(st.integers(0, 2)) == 0:
+        inter = sorted(draw(st.sets(st.integers(0, len(ops) - 2), min_size=1, max_size=3)))
+    # re-registration of an identical sink / static prefix is part of "most recently added wins"
+    if ops and draw(st.integers(0, 3)) == 0:
+        n_static = sum(1 for o in ops if o['k'] == 'static')
+        dup = [o for o in ops if o['k'] == 'sink' or (o['k'] == 'static' and n_static < 2)]  # two file trees exist
+        if dup:
+            ops = list(ops) + [dict(draw(st.sampled_from(dup)))]
+            if draw(st.booleans()):
+                inter = sorted(set(inter) | {len(ops) - 2})
+    return {'sbs': draw(st.booleans()), 'ops': list(ops), 'reqs': [list(r) for r in reqs], 'interleave': inter}
 
 
 class Apps(_Base):
